@@ -147,6 +147,151 @@ func Echo() error {
 }
 '''
 
+TTY_GO = r'''//go:build mage
+
+package main
+
+import (
+	"encoding/base64"
+	"encoding/json"
+	"fmt"
+	"io"
+	"os"
+	"syscall"
+	"unsafe"
+)
+
+func winsize(fd uintptr) (bool, [4]uint16) {
+	ws := [4]uint16{}
+	_, _, e := syscall.Syscall(syscall.SYS_IOCTL, fd, syscall.TIOCGWINSZ, uintptr(unsafe.Pointer(&ws)))
+	return e == 0, ws
+}
+
+// Tty talks to the terminal: it announces itself on stderr, reads what is typed until end of input, asks the
+// terminal for its size and reports on stdout.
+func Tty() error {
+	fmt.Fprintln(os.Stderr, "TTY-READY")
+	data, err := io.ReadAll(os.Stdin)
+	if err != nil {
+		return err
+	}
+	in, _ := winsize(os.Stdin.Fd())
+	out, ws := winsize(os.Stdout.Fd())
+	er, _ := winsize(os.Stderr.Fd())
+	b, _ := json.Marshal(map[string]interface{}{"read": base64.StdEncoding.EncodeToString(data),
+		"tty": []bool{in, out, er}, "rows": ws[0], "cols": ws[1]})
+	fmt.Fprintln(os.Stderr, "TTY-ERR")
+	fmt.Println("TTY " + string(b))
+	return nil
+}
+'''
+
+
+def proc_tree(root):
+    """{pid: (state, comm)} of root and all its descendants, from /proc"""
+    procs = {}
+    for d in os.listdir("/proc"):
+        if d.isdigit():
+            try:
+                t = open("/proc/%s/stat" % d).read()
+                comm = t[t.index("(") + 1:t.rindex(")")]
+                f = t[t.rindex(")") + 2:].split()
+                procs[int(d)] = (f[0], int(f[1]), comm)
+            except (OSError, ValueError):
+                pass
+    tree, todo = {}, [root]
+    while todo:
+        p = todo.pop()
+        if p in procs and p not in tree:
+            tree[p] = (procs[p][0], procs[p][2])
+            todo += [q for q, (_, pp, _) in procs.items() if pp == p]
+    return tree
+
+
+def run_tty(argv, cwd, env, typed, rows=33, cols=101, limit=120):
+    """Start argv as the FOREGROUND JOB of a fresh terminal session: pty.fork() makes the child a session leader with the
+    pty as controlling terminal and its process group the terminal's foreground group.  The terminal is set up like an
+    interactive one except that output is not post-processed and input is not echoed (so that bytes can be compared),
+    with TOSTOP set.  When the program says it is ready, a line is typed, then ^D.  While it runs the states of all
+    processes of the tree are sampled: none may be stopped (T) - a stopped process ends the run at once."""
+    import pty, termios, fcntl, struct, select, time
+    pid, master = pty.fork()
+    if pid == 0:
+        try:
+            a = termios.tcgetattr(0)
+            a[1] &= ~termios.OPOST
+            a[3] = (a[3] | termios.ICANON | termios.ISIG | termios.TOSTOP) & ~termios.ECHO
+            termios.tcsetattr(0, termios.TCSANOW, a)
+            fcntl.ioctl(0, termios.TIOCSWINSZ, struct.pack("HHHH", rows, cols, 0, 0))
+            os.chdir(cwd)
+            os.execve(argv[0], argv, env)
+        finally:
+            os._exit(127)
+    out, typed_at, stopped, t0, rc, fg = b"", None, {}, time.time(), None, None
+    try:
+        try:
+            fg = os.tcgetpgrp(master)
+        except OSError:
+            fg = None
+        while True:
+            r, _, _ = select.select([master], [], [], 0.2)
+            if r:
+                try:
+                    chunk = os.read(master, 65536)
+                except OSError:
+                    chunk = b""
+                if not chunk:
+                    break
+                out += chunk
+            if typed_at is None and b"TTY-READY" in out:
+                time.sleep(0.3)             # the program is now blocked in read(2) on the terminal
+                os.write(master, typed + b"\x04")
+                typed_at = time.time()
+            tree = proc_tree(pid)
+            bad = {p: sc for p, sc in tree.items() if sc[0] in ("T", "t")}
+            if bad:
+                time.sleep(0.5)
+                tree2 = proc_tree(pid)
+                bad = {p: tree2[p] for p in bad if p in tree2 and tree2[p][0] in ("T", "t")}
+                if bad:
+                    stopped = {"stopped": bad, "tree": tree2}
+                    break
+            done, st = os.waitpid(pid, os.WNOHANG)
+            if done:
+                rc = os.waitstatus_to_exitcode(st)
+                # drain
+                while True:
+                    r, _, _ = select.select([master], [], [], 0.2)
+                    if not r:
+                        break
+                    try:
+                        chunk = os.read(master, 65536)
+                    except OSError:
+                        break
+                    if not chunk:
+                        break
+                    out += chunk
+                break
+            if time.time() - t0 > limit:
+                stopped = {"hang": True, "tree": proc_tree(pid)}
+                break
+    finally:
+        if rc is None:
+            import signal
+            for p in sorted(proc_tree(pid), reverse=True):
+                try:
+                    os.kill(p, signal.SIGKILL)
+                except OSError:
+                    pass
+            try:
+                _, st = os.waitpid(pid, 0)
+                rc = os.waitstatus_to_exitcode(st) if not stopped else None
+            except OSError:
+                pass
+        os.close(master)
+    return {"rc": rc, "out": out, "typed": typed_at is not None, "problem": stopped, "foreground": fg == pid}
+
+
 TRUE_VALUES = {b"1", b"t", b"T", b"TRUE", b"true", b"True"}          # the property's "set to a true value"
 BOOL_FLAG = {True: ["-v", "-v=true", "-v=1", "--v", "-v=T"], False: ["-v=false", "-v=0", "-v=F", "--v=false"]}
 SIX = [b"MAGEFILE_VERBOSE", b"MAGEFILE_LIST", b"MAGEFILE_HELP", b"MAGEFILE_DEBUG", b"MAGEFILE_GOCMD", b"MAGEFILE_TIMEOUT"]
@@ -214,6 +359,9 @@ class Proj:
         if layout in ("mfdir", "both"):
             files["magefiles/magefile.go"] = MAGEFILE.replace("@ORIGIN@", "mfdir")
             files.update({"magefiles/" + k: v for k, v in plat.items()})
+        if HOST[0] == "linux":
+            for pre in ([""] if layout == "plain" else (["magefiles/"] if layout == "mfdir" else ["", "magefiles/"])):
+                files[pre + "tty_linux.go"] = TTY_GO
         self.layout = layout
         self.plat = sorted(plat)
         self.d = os.path.realpath(m.project(files, name="c11_%d" % i, probe=False))
@@ -399,6 +547,11 @@ def gen_cfg(rng, klass, layout, gowrap, quick):
     c = {"klass": klass, "layout": layout, "v": None, "debug": None, "l": None, "h": None, "t": None, "gocmd": None,
          "env": [], "dv": "none", "wv": "none", "stdin": "empty", "word": "probe", "off": None, "dd": False, "B": [], "twords": None, "stdin_kind": "pipe"}
     env = {}
+    if klass == "tty":
+        # a terminal session: the program is the foreground job of a fresh pty and its target reads what is typed
+        c.update(word="tty", tty=True, typed=rng.choice(["hello tty", "two words \t tab", "x", ""]), v=None, debug=None)
+        c["env"] = []
+        return c
     if klass == "slowbuild":
         # -t to mage with a build phase made slow (the go command sleeps before `go build`), a target that works well
         # inside its timeout but outlives any clock the front end might have started before building
@@ -771,6 +924,13 @@ def run_cfg(cfg, proj, m, conv, gocache, rng_payload):
     tail_m = (["--"] if cfg.get("dd") else []) + tail_b           # ... behind mage's own flags
     expect_cwd = os.path.realpath(os.path.join(cwd, wstr if wstr else (dstr if dstr else ".")))
     runs = []
+    if cfg.get("tty"):
+        if HOST[0] != "linux":
+            return {"tty": None}
+        env = {k.decode("latin-1"): v.decode("latin-1") for k, v in dict(base, **own).items()}
+        typed = cfg["typed"].encode() + b"\n"
+        return {"tty": {"mage": run_tty([m.bin] + args + ["tty"], cwd, env, typed), "binary": run_tty([proj.bin, "tty"], expect_cwd, env, typed)},
+                "typed": typed}
     if cfg["word"] == "echo":
         proj.npay += 1
         po = os.path.join(proj.pay, "o%d" % proj.npay)
@@ -851,6 +1011,29 @@ def oracle(cfg, proj, res, conv):
     """returns [(clause, detail)]"""
     bad = []
     cfg = resolved(cfg)
+    if "tty" in res:
+        for route, r in (res["tty"] or {}).items():
+            tag = "[%s tty, as the foreground job of a terminal session] " % route
+            if not r["foreground"]:
+                bad.append(("tty", tag + "harness: the program's process group is not the terminal's foreground group"))
+            if r["problem"]:
+                what = "hangs" if r["problem"].get("hang") else "has stopped processes %r" % r["problem"].get("stopped")
+                bad.append(("tty", tag + "the process tree %s (the terminal's input never reaches the target); states: %r; output so far %r" % (
+                    what, r["problem"]["tree"], r["out"][-120:])))
+                continue
+            m = re.search(rb"^TTY (\{.*\})$", r["out"], re.M)
+            if r["rc"] != 0 or not m:
+                bad.append(("tty", tag + "exit %r, output %r" % (r["rc"], r["out"][-300:])))
+                continue
+            js = json.loads(m.group(1))
+            if base64.b64decode(js["read"]) != res["typed"]:
+                bad.append(("stdin", tag + "the target read %r, %r was typed" % (base64.b64decode(js["read"]), res["typed"])))
+            if js["tty"] != [True, True, True] or (js["rows"], js["cols"]) != (33, 101):
+                bad.append(("tty", tag + "the target's streams are terminals: %r, window %dx%d (the terminal has 33x101)" % (js["tty"], js["rows"], js["cols"])))
+            want = b"TTY-READY\nTTY-ERR\n" + m.group(0) + b"\n"
+            if r["out"] != want and cfg["layout"] != "both":
+                bad.append(("stdout-bytes", tag + "the terminal received %r, the target wrote %r" % (r["out"][:200], want[:200])))
+        return bad
     if "echo" in res:
         r, pout, perr = res["echo"], res["pout"], res["perr"]
         own = cfg_env(cfg)
@@ -1293,8 +1476,8 @@ def run(ctx):
     # configurations
     nproj = 12 if quick else 16
     layouts = (["plain", "mfdir", "plain", "both"] * 4)[:nproj]
-    counts = ({"slowbuild": 1, "matrix": 54, "dashdash": 20, "default": 10, "listhelp": 8, "explicit-off": 6, "afterwords": 12, "echo": 12, "alt": 6, "hashfast": 5} if quick else
-              {"slowbuild": 4, "matrix": 1500, "dashdash": 400, "default": 200, "listhelp": 120, "explicit-off": 40, "afterwords": 192, "echo": 200, "alt": 40, "hashfast": 100})
+    counts = ({"slowbuild": 1, "matrix": 54, "dashdash": 20, "default": 10, "listhelp": 8, "explicit-off": 6, "afterwords": 12, "echo": 12, "alt": 6, "hashfast": 5, "tty": 2} if quick else
+              {"slowbuild": 4, "matrix": 1500, "dashdash": 400, "default": 200, "listhelp": 120, "explicit-off": 40, "afterwords": 192, "echo": 200, "alt": 40, "hashfast": 100, "tty": 12})
     cfgs = []
     if ctx.replay and ctx.replay.get("case"):
         cfgs = [] if ctx.replay["case"].get("parser_words") is not None else [ctx.replay["case"]]
@@ -1359,6 +1542,10 @@ def run(ctx):
         bump("layout", c["layout"])
         bump("d", c["dv"])
         bump("w", c["wv"])
+        if "tty" in res:
+            nruns += 2 if res["tty"] else 0
+            bump("echo", "terminal session, typed %r" % c["typed"])
+            continue
         if "echo" in res:
             nruns += 1
             if "echo_ref" in res:
